@@ -94,12 +94,17 @@ def cli_case(args):
     w = ws.mkws('c01')
     try:
         name = job['name']
+        patch = bytes.fromhex(job['patch'])
+        if job['id'] % 3 != 0 and name == 'f.c':
+            # the same file in a directory of its own (which a creation has to make and a deletion to remove)
+            name = 'nd/sub/f.c'
+            patch = patch.replace(b'f.c', b'nd/sub/f.c')
         if job['a'] is not None:
             ws.write(w, name, bytes.fromhex(job['a']))
-        ws.write(w, 'patches/p1.patch', bytes.fromhex(job['patch']))
+        ws.write(w, 'patches/p1.patch', patch)
         opts = ' -p%d' % job['strip'] + (' -R' if job['rev'] else '')
         ws.write(w, 'series', ('p1.patch' + opts + '\n').encode())
-        rc, so, se = ws.push(w, ['-a', '-q', '--threads', threads])
+        rc, so, se = ws.push(w, ['-a', '-q', '--threads', threads], via_d=(job['id'] // 3) % 2 == 0)
         snap = ws.snapshot(w)
         got = snap.get(name, (None,))[0]
         allowed = [None if x is None else bytes.fromhex(x) for x in job['allowed']]
@@ -202,7 +207,7 @@ def check(prop, tier):
                 counts[j['dialect']] = counts.get(j['dialect'], 0) + 1
                 why = judge(j, obs.get(j['id'], {'status': 'missing'}))
                 if why is None:
-                    if rnd.random() < 0.02 and not j['ambiguous']:
+                    if rnd.random() < (0.2 if (j['a'] is None or j['allowed'] == [None]) else 0.02) and not j['ambiguous']:
                         cli_pool.append(j)
                     continue
                 case = cases[j['ci']][1]
